@@ -24,7 +24,7 @@ Init == /\ \E q \in QCaps : conns = [c \in Conns |-> [InitConn(Dev, q) EXCEPT !.
                   nconn |-> 0,      \* ServerMetrics::num_connections
                   fail |-> 0, refused |-> {},
                   listening |-> TRUE,   \* the accept loop of StreamServer::run is alive
-                  aerr |-> 0]
+                  aerr |-> 0, dreconf |-> 0, dspur |-> 0, dserr |-> 0]
 
 Local(c, f) == conns' = [conns EXCEPT ![c] = f] /\ UNCHANGED dg
 S(c) == conns[c]
@@ -110,6 +110,16 @@ DRecvShort == /\ bud.dsent < MaxReq
 DRecvReply == /\ bud.dsent < MaxReq
               /\ \E w \in {"reply", "shortqr"} : dg' = DgRecv(dg, w, bud.dsent + 1, "")
               /\ bud' = [bud EXCEPT !.dsent = @ + 1] /\ DSame
+DReconf == /\ bud.dreconf < 2
+           /\ \E lim \in {512, 1232, 4096} \ {dg.limit} : dg' = DgReconf(dg, lim)
+           /\ bud' = [bud EXCEPT !.dreconf = @ + 1] /\ DSame
+DRecvBig == /\ bud.dsent < MaxReq
+            /\ dg' = DgRecv(dg, "query", bud.dsent + 1, "big")
+            /\ bud' = [bud EXCEPT !.dsent = @ + 1] /\ DSame
+SpuriousReadable == /\ bud.dspur < 1 /\ dg' = DgSpurious(dg)
+                    /\ bud' = [bud EXCEPT !.dspur = @ + 1] /\ DSame
+SendError == /\ dg.sendfail = 0 /\ bud.dserr < 1 /\ dg' = DgSendErr(dg)
+             /\ bud' = [bud EXCEPT !.dserr = @ + 1] /\ DSame
 DRelease == \E r \in DOMAIN dg.tasks :
               /\ dg.tasks[r].permits < Len(dg.tasks[r].items)
               /\ dg' = DgRelease(dg, r) /\ UNCHANGED bud /\ DSame
@@ -124,7 +134,8 @@ NextConn ==
        \/ Flush(c) \/ TakeOne(c) \/ IdleTimeout(c) \/ Dispatch(c) \/ ReadShort(c)
        \/ ReadEof(c) \/ WritePartial(c) \/ WriteOne(c) \/ WriteTimeout(c) \/ WriteError(c) \/ Flushed(c)
        \/ ServiceYield(c) \/ Enqueue(c)
-NextDg == DRecv \/ DRecvShort \/ DRecvReply \/ DRelease \/ DSend
+NextDg == \/ DRecv \/ DRecvShort \/ DRecvReply \/ DRecvBig \/ DRelease \/ DSend
+          \/ DReconf \/ SpuriousReadable \/ SendError
 SpecConn == Init /\ [][NextConn]_vars
 SpecDg   == Init /\ [][NextDg]_vars
 
@@ -141,13 +152,21 @@ Framed              == \A c \in Conns : /\ QueueBounded(S(c)) /\ WireFramed(S(c)
 \* only the shutdown command ends the accept loop: after any number of
 \* failed accepts / failed setups / refusals / hostile connections a later
 \* good connection is still taken on (AcceptOk stays enabled below the limit)
+\* the idle timeout in force is the configured one until a response with
+\* Reconfigure feedback went through process_feedback, then that one
+IdleUsesValueInForce ==
+  \A c \in Conns :
+     LET fbs == {S(c).yielded[i].r : i \in 1..Len(S(c).yielded)}
+     IN S(c).itmo \in {IdleDefault, IdleLong, IdleShort}
+        /\ (S(c).itmo # IdleDefault => \E r \in DOMAIN S(c).tasks : S(c).tasks[r].n > 0)
 AcceptLoopAlive == bud.listening = ~bud.down
 NumConnsExact == bud.nconn = Cardinality({c \in Conns : S(c).live})
 RefusedOnlyAtLimit ==
   [][\A c \in Conns : (c \in bud'.refused /\ c \notin bud.refused)
          => Cardinality({d \in Conns : conns[d].live}) >= Limit]_vars
 TornIsLast == [][\A c \in Conns : conns[c].torn => conns'[c].wrote = conns[c].wrote]_vars
-DgramEachOnce       == DgEachOnce(dg)
+DgramEachOnce       == DgEachOnce(dg) /\ DgLoopAlive(dg)
+DgramSize           == DgSizeOK(dg)
 \* a step of one connection leaves every other connection's state alone;
 \* the only global steps are the clock and the server-wide shutdown, and
 \* they treat each connection by its own state
